@@ -125,3 +125,14 @@ let n_usize_max : n =
 
 let n_of_token (s : string) : n = if s = "inf" then n_usize_max else n_of_int (int_of_string s)
 let token_of_n (x : n) : string = if x = n_usize_max then "inf" else string_of_int (int_of_n x)
+
+(* A Java properties text as what it denotes: the set of key=value lines, comment lines (#, !)
+   and blank lines dropped, order ignored.  Used to compare the implementation's properties
+   text with the model's: the order of the keys and the comment header are not part of the
+   content of a properties file. *)
+let props_canon (drop_keys : Stdlib.String.t list) (text : Stdlib.String.t) : Stdlib.String.t list =
+  let starts l k = Stdlib.String.length l >= Stdlib.String.length k && Stdlib.String.sub l 0 (Stdlib.String.length k) = k in
+  let lines = Stdlib.String.split_on_char '\n' text in
+  let lines = List.map Stdlib.String.trim lines in
+  let keep l = l <> "" && l.[0] <> '#' && l.[0] <> '!' && not (List.exists (starts l) drop_keys) in
+  List.sort compare (List.filter keep lines)
